@@ -144,7 +144,9 @@ class Model:
         fr = g.gi_frame
         if fr is None:
             return None
-        return (fr.f_lasti, tuple(sorted((k, int(v)) for k, v in fr.f_locals.items() if isinstance(v, (int, np.integer)) and not k.startswith("__red"))))
+        # every scalar local is part of the task's state: integers (indices, labels) and floats (a value loaded but not yet stored)
+        return (fr.f_lasti, tuple(sorted((k, int(v) if isinstance(v, (int, np.integer)) else float(v)) for k, v in fr.f_locals.items()
+                                         if isinstance(v, (int, float, np.integer, np.floating)) and not k.startswith("__red"))))
 
     def _par(self, n, body, rednames, sharednames):
         red = {r: 0 for r in rednames}
